@@ -344,6 +344,36 @@ def execute(plan, ctx):
         conn.commit()
         if conn.hazards:
             raise Precondition("known C04 finding: inline-duplicate")
+        # a valid tree must be accepted in every activation state: loaded
+        # by a fresh connection (every node but the root a ghost), with a
+        # checker as the very first thing that touches it, and with a planned
+        # subset of its nodes evicted again
+        for name in ("_check", "check"):
+            r0 = SimConnection(st, impl)
+            t0 = r0.get(oid)
+            fn = t0._check if name == "_check" else (
+                lambda t0=t0: checkmod.check(t0))
+            r = _run_checker(fn)
+            if r != "accept":
+                raise Violation(
+                    dict(base, oracle="pristine-rejected", by=name, got=r,
+                         state="freshly-loaded"),
+                    "%s rejected a valid stored tree freshly loaded by a new "
+                    "connection (all nodes ghosts): %s, shape %r" % (
+                        name, r, w0.shape))
+            nodes = r0.nodes()
+            sub = set(o._p_oid for j, o in enumerate(nodes)
+                      if (plan["arg"] >> (j % 20)) & 1)
+            if r0.sweep("deactivate", sub):
+                ctx.fault("evict-between")
+            r = _run_checker(fn)
+            if r != "accept":
+                raise Violation(
+                    dict(base, oracle="pristine-rejected", by=name, got=r,
+                         state="partly-evicted"),
+                    "%s rejected a valid stored tree after some of its nodes "
+                    "were evicted: %s, shape %r" % (name, r, w0.shape))
+            ctx.probe("accepted-with-ghosts:" + name)
     res = _apply_corruption(t, plan, dom, mapping)
     if res is None:
         ctx.probe("corruption-not-applicable")
